@@ -14,7 +14,7 @@
 (* trim) and position t of the link is decode-space sample a0 + t.         *)
 (***************************************************************************)
 EXTENDS VFRead, TLC
-CONSTANTS MaxLinks, Shapes, PPPs, S0s, ETs, Muxes, BIdx, PLen, ReadLens, MaxCalls, Ops, DiscardVi, Streaming, PinSer
+CONSTANTS MaxLinks, Shapes, PPPs, S0s, ETs, Muxes, BIdx, PLen, ReadLens, MaxCalls, Ops, DiscardVi, Streaming, PinSer, PinBos
 VARIABLES lay, file, vf, dl, last, ncalls, nxt          \* nxt: ghost, [link, lin] = the decode-space sample that must be handed out next (read-through only)
 vars == <<lay, file, vf, dl, last, ncalls, nxt>>
 K == [chunk |-> 4, near |-> 3, read |-> 2, backup |-> "begin", handover |-> "refetch", clamp |-> TRUE, discardvi |-> DiscardVi]
@@ -61,14 +61,14 @@ FileOf(ch) ==
   LET PG == WithOff(Flat(ch, 1), 1, 0)
       o == Open(PG, { VSer(i) : i \in 1..Len(ch) }, K)
   IN [PG |-> PG, ok |-> o.ok, LT |-> o.links, BL |-> [i \in 1..Len(ch) |-> BCat[ch[i].b]]]
-NoOp == [op |-> "none", arg |-> 0, ret |-> 0, t0 |-> 0, due |-> [link |-> 1, lin |-> 0, on |-> FALSE]]
+NoOp == [op |-> "none", arg |-> 0, ret |-> 0, t0 |-> 0, due |-> [link |-> 1, lin |-> 0, on |-> FALSE], rs0 |-> 0, link0 |-> 0]
 Init == lay = <<>> /\ file = <<>> /\ vf = <<>> /\ dl = NoDelivery /\ last = NoOp /\ ncalls = 0 /\ nxt = [link |-> 1, lin |-> 0, on |-> FALSE]
 Choose == /\ lay = <<>>
           /\ \E ch \in Chains :
                LET f == FileOf(ch) IN
                /\ lay' = ch /\ file' = f
                /\ nxt' = [link |-> 1, lin |-> A0(ch[1]), on |-> TRUE]
-               /\ IF f.ok THEN LET o == IF Streaming THEN OpenedStreaming(f.PG, f.LT, f.BL) ELSE Opened(f.PG, f.LT, f.BL) IN vf' = [o.vf EXCEPT !.pinser = PinSer] /\ last' = [NoOp EXCEPT !.op = "open", !.ret = o.ret]
+               /\ IF f.ok THEN LET o == IF Streaming THEN OpenedStreaming(f.PG, f.LT, f.BL) ELSE Opened(f.PG, f.LT, f.BL) IN vf' = [o.vf EXCEPT !.pinser = PinSer, !.pinbos = PinBos] /\ last' = [NoOp EXCEPT !.op = "open", !.ret = o.ret]
                   ELSE vf' = <<>> /\ last' = [NoOp EXCEPT !.op = "open", !.ret = -1]
           /\ dl' = NoDelivery /\ ncalls' = 0
 Live == lay # <<>> /\ file.ok /\ last.ret # -999 /\ ncalls < MaxCalls
@@ -79,13 +79,14 @@ NxtAfter(op, r) ==
   ELSE IF r.dl.n = 0 \/ ~nxt.on \/ r.dl.hs = 1 THEN nxt
   ELSE LET c == lay[r.dl.link]  e == LinOf(r.dl) + r.dl.n IN
        IF e >= A0(c) + N(c) THEN [link |-> r.dl.link + 1, lin |-> IF r.dl.link < Len(lay) THEN A0(lay[r.dl.link + 1]) ELSE 0, on |-> TRUE] ELSE [link |-> r.dl.link, lin |-> e, on |-> TRUE]
-Step(op, arg, r) == /\ nxt' = NxtAfter(op, r) /\ vf' = r.vf /\ last' = [op |-> op, arg |-> arg, ret |-> r.ret, t0 |-> vf.off, due |-> nxt] /\ ncalls' = ncalls + 1 /\ UNCHANGED <<lay, file>>
+Step(op, arg, r) == /\ nxt' = NxtAfter(op, r) /\ vf' = r.vf /\ last' = [op |-> op, arg |-> arg, ret |-> r.ret, t0 |-> vf.off, due |-> nxt, rs0 |-> vf.rs, link0 |-> vf.link] /\ ncalls' = ncalls + 1 /\ UNCHANGED <<lay, file>>
 DoRead == "read" \in Ops /\ Live /\ \E len \in ReadLens : LET r == Read(file.PG, file.LT, file.BL, vf, len) IN Step("read", len, r) /\ dl' = r.dl
 DoRaw == "raw" \in Ops /\ Live /\ \E p \in 0..DataEnd(file.PG) : LET r == RawSeek(file.PG, file.LT, file.BL, vf, p) IN Step("raw", p, r) /\ dl' = NoDelivery
 DoPcm == "pcm" \in Ops /\ Live /\ \E t \in 0..Total(file.LT) : LET r == PcmSeek(file.PG, file.LT, file.BL, vf, t, K) IN Step("pcm", t, r) /\ dl' = NoDelivery
 DoHalf == "half" \in Ops /\ Live /\ \E fl \in {0, 1} : LET r == HalfRate(file.PG, file.LT, file.BL, vf, fl, K) IN Step("half", fl, r) /\ dl' = NoDelivery
+DoLap == "lap" \in Ops /\ Live /\ \E t \in 0..Total(file.LT) : LET r == LapSeek(file.PG, file.LT, file.BL, vf, "pcm", t, K) IN Step("lap", t, r) /\ dl' = NoDelivery
 DoPage == "page" \in Ops /\ Live /\ \E t \in 0..Total(file.LT) : LET r == PcmSeekPage(file.PG, file.LT, file.BL, vf, t, K) IN Step("page", t, r) /\ dl' = NoDelivery
-Next == Choose \/ DoRead \/ DoRaw \/ DoPcm \/ DoPage \/ DoHalf
+Next == Choose \/ DoRead \/ DoRaw \/ DoPcm \/ DoPage \/ DoHalf \/ DoLap
 Spec == Init /\ [][Next]_vars
 
 Chosen == lay # <<>>
@@ -113,6 +114,11 @@ ReadOutcome == Chosen /\ ~Streaming /\ last.op = "read" => /\ last.ret >= 0 /\ l
                                              /\ (last.t0 = Total(file.LT) => last.ret = 0)
                                              /\ (last.t0 >= 0 /\ last.t0 < Total(file.LT) => last.ret > 0)
 HalfOutcome == Chosen /\ last.op = "half" => last.ret = 0 /\ vf.hs = last.arg /\ (last.t0 >= 0 => vf.off <= last.t0 /\ vf.off >= last.t0 - 2)
+\* a lapped seek lands where the plain seek lands; it may end with OV_EOF where there is nothing behind the target to prime the lap with
+LapOutcome == Chosen /\ last.op = "lap" =>
+  \/ (last.ret = 0 /\ vf.off = last.arg)
+  \/ (last.ret = OV_EOF /\ vf.off = Total(file.LT))                                                          \* sought, and no audio follows the target
+  \/ (last.ret = OV_EOF /\ last.rs0 < INITSET /\ vf.off = last.t0 /\ last.t0 = SumLen(file.LT, last.link0))     \* no decoder, and at the end of the link the handle is in
 SeekOutcome == Chosen /\ last.op \in {"raw", "pcm", "page"} =>
   /\ last.ret = 0
   /\ vf.off >= 0 /\ vf.off <= Total(file.LT)
